@@ -149,7 +149,7 @@ def r02d(ctx):
     ctx.floor('R02d', n, 2)
 
 
-def r02a(ctx):
+def r02a(ctx, rule='R02a'):
     prog = ctx.prog
     n = 0
     imps = [f for q, fl in prog.by_q.items() if q.startswith('TMCG_StackSecret<') and q.endswith('::import') for f in fl]
@@ -158,11 +158,11 @@ def r02a(ctx):
     for f in imps:
         a = ctx.analysis(f)
         T = a.T
-        key0 = 'R02a:' + f['q']
+        key0 = rule + ':' + f['q']
         # the loop that fills the stack
         pushes = [(nid, ev) for nid, ev in a.all_events('mcall') if ev[1].endswith('::push_back') and ev[6] == ('m', 'stack')]
         if not pushes:
-            ctx.bad('R02a', key0 + ':push', 'importer no longer stores the parsed pairs (anchor changed)', f, nec=False)
+            ctx.bad(rule, key0 + ':push', 'importer no longer stores the parsed pairs (anchor changed)', f, nec=False)
             continue
         nid, ev = pushes[0]
         loop = None
@@ -172,7 +172,7 @@ def r02a(ctx):
                     loop = h
         n += 1
         if loop is None:
-            ctx.bad('R02a', key0 + ':range', 'pairs are not stored in a counting loop', f)
+            ctx.bad(rule, key0 + ':range', 'pairs are not stored in a counting loop', f)
             continue
         bound = a.loop_bound[loop][0]
         # value of the index component at the push
@@ -188,9 +188,9 @@ def r02a(ctx):
         itf = a.iteration_facts(loop)
         okr = first_val is not None and any(T.node(x)[0] == 'rel' and T.node(x)[1] == '<' and T.node(x)[2] == first_val and T.node(x)[3] == bound for x in itf)
         if okr:
-            ctx.ok('R02a', key0 + ':range', 'every parsed index is < size before it is stored', f, line=ev[4])
+            ctx.ok(rule, key0 + ':range', 'every parsed index is < size before it is stored', f, line=ev[4])
         else:
-            ctx.bad('R02a', key0 + ':range', 'a parsed permutation index is stored without the check index < size', f, line=ev[4])
+            ctx.bad(rule, key0 + ':range', 'a parsed permutation index is stored without the check index < size', f, line=ev[4])
         # bijectivity: presence of every i < size afterwards, or distinctness while parsing
         n += 1
         present = False
@@ -215,9 +215,9 @@ def r02a(ctx):
                 if T.contains(x, lambda nn: nn[0] == 'mc' and 'find' in nn[1].split('::')[-1]) and first_val in T.subterms(x):
                     distinct = True
         if present or distinct:
-            ctx.ok('R02a', key0 + ':bijection', 'acceptance requires every index 0..size-1 to be present' if present else 'acceptance requires pairwise distinct indices', f)
+            ctx.ok(rule, key0 + ':bijection', 'acceptance requires every index 0..size-1 to be present' if present else 'acceptance requires pairwise distinct indices', f)
         else:
-            ctx.bad('R02a', key0 + ':bijection', 'importer accepts index vectors that are not permutations (no presence / distinctness check guards acceptance)', f)
+            ctx.bad(rule, key0 + ':bijection', 'importer accepts index vectors that are not permutations (no presence / distinctness check guards acceptance)', f)
     # operator>> : failed import => failbit
     for q, fl in prog.by_q.items():
         pass
@@ -232,12 +232,12 @@ def r02a(ctx):
                 st = a.instate[nid]
                 if any(T.node(x)[0] == 'falsy' and T.node(T.node(x)[1])[0] == 'mc' and T.node(T.node(x)[1])[1].endswith('::import') for x in st.facts):
                     okv = True
-        key = 'R02a:operator>>:' + [p['t'] for p in f['params'] if 'StackSecret' in p['t']][0]
+        key = rule + ':operator>>:' + [p['t'] for p in f['params'] if 'StackSecret' in p['t']][0]
         if okv:
-            ctx.ok('R02a', key, 'failed import sets failbit', f)
+            ctx.ok(rule, key, 'failed import sets failbit', f)
         else:
-            ctx.bad('R02a', key, 'operator>> does not signal a refused stack secret (failbit)', f)
-    ctx.floor('R02a', n, 6)
+            ctx.bad(rule, key, 'operator>> does not signal a refused stack secret (failbit)', f)
+    ctx.floor(rule, n, 6)
 
 
 def r02b(ctx):
